@@ -233,6 +233,9 @@ def encode(job):
         res["twins"][qn] = rr
         if rr == "sat" and qn != "reach_metadata_cut":
             res["twins"][qn + "_model"] = decode(s.model())
+    xs = common.xs_run(s, qs, res["verdicts"], (shape, collecting), ("accept_differs_from_conjunction", "visits_below_metadata"))
+    if xs:
+        res["xsolver"] = xs
     res["t_solve"] = time.time() - t1
     res["stats"] = {k: (round(v, 3) if isinstance(v, float) else v) for k, v in view.stats.items()}
     res["functions"] = sorted(view.functions)
@@ -246,6 +249,7 @@ def _count(shape):
 def run(tier, only=None):
     rep = Report(PROP, tier, "PyBMC merged symbolic execution of validate.tree over all ordered tree shapes, node outcomes uninterpreted + z3 QF_BV")
     sd = common.seed()
+    common.xs_enable(tier)
     maxn = 5 if tier == "quick" else 7
     all_shapes = [sh for n in range(1, maxn + 1) for sh in shapes(n)]
     jobs = [(sh, coll, sd) for sh in all_shapes for coll in (False, True)]
@@ -269,6 +273,7 @@ def run(tier, only=None):
             rep.inconclusive.append("%s: unsupported construct: %s" % (tag, r["unsupported"]))
             continue
         rep.functions.update(r["functions"])
+        common.xs_collect(rep, tag, r)
         if r.get("mode", "merged") != "merged":
             rep.extra.setdefault("pathwise_encodings", []).append({"shape": repr(sh), "mode": r["mode"], "paths": r["paths"]})
         rep.solver_time += r["t_solve"] + r["stats"].get("t_check", 0)
